@@ -76,9 +76,9 @@ Print Assumptions C16_viewer_bytes_relayed.
 
 (** The server -> viewer leg: VNCLoggingClientProxy.dataReceived forwards the chunk and then hands it to
     the logging client (an RFB client on a null transport); an exception there would abort the relayed
-    session.  On a server session of FramebufferUpdates (Raw / CopyRect / RRE / CoRRE rectangles in the
-    format in force, any mix and number), Bells and ServerCutTexts of any length the logging client
-    never raises: it consumes the session exactly and is idle at a message boundary.  (Hextile / ZRLE /
+    session.  On a server session of FramebufferUpdates (Raw / CopyRect / RRE / CoRRE / Hextile rectangles
+    in the format in force, any mix and number), Bells and ServerCutTexts of any length the logging client
+    never raises: it consumes the session exactly and is idle at a message boundary.  (ZRLE /
     cursor rectangles: decided by the campaign; a viewer-selected format the logging client does not
     follow is the open finding c16-pixel-format.) *)
 Theorem C16_server_session_never_raises : forall msgs s,
